@@ -53,8 +53,94 @@ def run(chk):
         chk.ok('C22-callee', 'Call', sample='check_expr/Call: call.obj.t().is_procedure() || attr_name.is_procedural()')
     else:
         chk.bad('C22-callee', 'SideEffectChecker::check_expr', 'Call', 'the Call arm no longer tests the callee (call.obj) for being a procedure', FILE, fn['line'])
+    block_kind_rules(chk, fx, fn)
     return ('Visitor-completeness over SideEffectChecker::check_expr: the hir type graph (ADT facts) gives the Expr-bearing field paths of every variant payload; '
             'the arm handling a variant must reference each path, delegate the payload, or be a listed exception. '
             'Decides "is visited", not how a visited call is classified.'), {}
 
 
+
+
+EXPECT_KIND = {  # (is_procedural, is_subr, is_const) -> block kind pushed by check_def   (None = diverges)
+    (True, True, False): 'Proc', (False, True, False): 'Func', (False, True, True): 'ConstFunc',
+    (True, False, False): 'Instant', (False, False, False): 'Instant', (True, False, True): 'ConstInstant', (False, False, True): 'ConstInstant',
+    (True, True, True): None,
+}
+ALLOWING = {'Proc', 'Module'}
+FORBIDDING = {'Func', 'ConstFunc', 'ConstInstant'}
+
+
+def bool_pat(p, v):
+    k = p.get('k')
+    if k == 'Wild' or (k == 'Bind' and 'sub' not in p):
+        return True
+    if k == 'PLit' and 'bool' in (p.get('v') or {}):
+        return p['v']['bool'] == v
+    if k == 'POr':
+        return any(bool_pat(q, v) for q in p['p'])
+    return None
+
+
+def block_kind_rules(chk, fx, check_expr_fn):
+    chk.rule('C22-kind', 'SideEffectChecker::check_def pushes the block kind dictated by (is_procedural, is_subr, is_const): Proc only for procedural subroutines, Func / ConstFunc for '
+                         'other subroutines, Instant / ConstInstant for non-subroutine definitions (all 8 combinations evaluated against the match arms)')
+    chk.rule('C22-ctx', 'in_context_effects_allowed lets the innermost enclosing non-Instant block decide (effects allowed iff it is Proc or Module); a decision from a fixed window of '
+                        'the block stack cannot see through nested instant blocks')
+    f = fx.fn(FILE, 'SideEffectChecker::check_def')
+    ms = [n for n in T.walk(f['body']) if n.get('k') == 'Match' and T.peel(n['x']).get('k') == 'Tup' and len(T.peel(n['x'])['a']) == 3]
+    if chk.need(len(ms) == 1, 'check_def: the (is_procedural, is_subr, is_const) match was not found'):
+        m = ms[0]
+        names = [T.show(a) for a in T.peel(m['x'])['a']]
+        chk.need(names == ['is_procedural', 'is_subr', 'is_const'], 'check_def: scrutinee is %s' % names)
+        env = {}
+        for n in T.walk(f['body']):
+            if n.get('k') == 'Let' and n['pat'].get('k') == 'Bind' and 'init' in n:
+                env[n['pat']['n']] = T.show(n['init'])
+        chk.need(env.get('is_procedural', '').endswith('is_procedural()') and env.get('is_subr', '').endswith('is_subr()') and env.get('is_const', '').endswith('is_const()'),
+                 'check_def: is_procedural / is_subr / is_const are no longer def.sig.is_*()')
+        for combo, want in EXPECT_KIND.items():
+            got = 'no arm'
+            for arm in m['arms']:
+                p = arm['pat']
+                if p.get('k') != 'PTuple' or len(p['p']) != 3:
+                    continue
+                r = [bool_pat(q, v) for q, v in zip(p['p'], combo)]
+                if None in r:
+                    got = '?'
+                    break
+                if all(r):
+                    pushes = [T.last_seg(T.peel(c['a'][0]).get('d', '?')) for c in T.calls(arm['b']) if c.get('k') == 'MCall' and c['n'] == 'push' and 'block_stack' in T.show(c['r'])]
+                    got = pushes[0] if pushes else None
+                    break
+            inst = 'procedural=%s,subr=%s,const=%s' % combo
+            if got == '?':
+                chk.lost.append('check_def: unrecognised pattern in the block-kind match')
+            elif got == want:
+                chk.ok('C22-kind', inst, sample='%s -> %s' % (inst, got))
+            else:
+                chk.bad('C22-kind', 'SideEffectChecker::check_def', inst, 'check_def pushes block kind %s for a definition with %s; expected %s' % (got, inst, want), FILE, m['l'])
+    g = fx.fn(FILE, 'SideEffectChecker::in_context_effects_allowed')
+    loops = [n for n in T.walk(g['body']) if n.get('k') == 'Loop']
+    windows = [n for n in T.walk(g['body']) if n.get('k') == 'MCall' and n['n'] in ('get', 'last', 'first') and 'block_stack' in T.show(n['r'])]
+    if loops and not windows:
+        # the loop must skip Instant and answer from the first other kind
+        ok_tab = True
+        for m in [n for n in T.walk(g['body']) if n.get('k') == 'Match' and n.get('src') == 'Normal']:
+            for arm in m['arms']:
+                kinds = {T.last_seg(v) for v in T.pat_variants(arm['pat'])}
+                rets = [T.peel(r.get('x') or {}).get('v', {}).get('bool') for r in T.walk(arm['b']) if r.get('k') == 'Ret']
+                if kinds & ALLOWING and (kinds & FORBIDDING or False in rets or not rets):
+                    ok_tab = False
+                if kinds & FORBIDDING and (True in rets or not rets):
+                    ok_tab = False
+                if 'Instant' in kinds and rets:
+                    ok_tab = False
+        if ok_tab:
+            chk.ok('C22-ctx', 'scan', sample='in_context_effects_allowed: scans the block stack outward, skipping Instant; Proc/Module => true, Func/ConstFunc/ConstInstant => false')
+        else:
+            chk.bad('C22-ctx', 'SideEffectChecker::in_context_effects_allowed', 'table', 'the block-kind table of in_context_effects_allowed allows effects under a forbidding block kind (or forbids under Proc/Module)', FILE, g['line'])
+    elif windows:
+        chk.bad('C22-ctx', 'SideEffectChecker::in_context_effects_allowed', 'fixed-window', 'in_context_effects_allowed decides from a fixed window of the block stack (%s): an instant block nested in '
+                'an instant block inside a function is treated as effect-allowing' % ', '.join(sorted({T.show(w) for w in windows})), FILE, g['line'])
+    else:
+        chk.lost.append('in_context_effects_allowed: unrecognised shape')
